@@ -49,6 +49,8 @@ SUBJECTS = {
 }
 # subjects whose alphabet contains the allocator calls that move content (reported under one key)
 GROW_SUBJECTS = ["calpoolgrow", "calbumpgrow"]
+# planted position-dependent structures of the harness itself (src/selftest.rs): must be detected on every run
+SELFTEST = {"selftest-fault": ("FAULT", "2"), "selftest-diverge": ("DIVERGE", "1")}
 RANDOM_CASES = (64, 1600)      # per subject: quick, thorough
 RANDOM_MAXOPS = 200
 
@@ -239,6 +241,9 @@ def run_jobs(ctx, exe, driver):
     for s in GROW_SUBJECTS:
         jobs.append((s, "exh", [exe, "exh", s, "2", "0", "1", str(ctx.seed), "0", os.path.join(rep_dir, "%s-exh-0.rep" % s)], False))
 
+    for s, (_, ln) in SELFTEST.items():
+        jobs.append((s, "exh", [exe, "exh", s, ln, "0", "1", str(ctx.seed), "0", os.path.join(rep_dir, "%s-exh-0.rep" % s)], False))
+
     def one(job):
         s, mode, argv, model = job
         t0 = time.time()
@@ -279,7 +284,11 @@ def part_g3(ctx, tab):
     per = {}
     faults, diverges, model_mm, crashed = [], [], [], []
     spec_mm = 0
+    selftest_seen = {}
     for s, mode, argv, model, rc, out, rep, wall in results:
+        if s in SELFTEST:
+            selftest_seen[s] = sum(1 for l in rep.split("\n") if l.startswith(SELFTEST[s][0]))
+            continue
         p = per.setdefault(s, {"structure": NAMES.get(s, s), "cases": 0, "ops": 0, "relocations": 0, "diverged": 0, "faults": 0, "panicked_cases": 0,
                                "model_checked_cases": 0, "mismatches_model": 0, "compared_with": "unrelocated run + extracted model (C16 driver)" if model else "unrelocated run only (no sequential extracted model)",
                                "wall_s": 0.0})
@@ -314,6 +323,12 @@ def part_g3(ctx, tab):
                 crashed.append((s, " ".join(argv), rc, out[-600:]))
         if not done and s not in GROW_SUBJECTS:
             crashed.append((s, " ".join(argv), rc, (rep[-400:] + " | " + out[-300:])))
+    ctx.cov["harness_selftest"] = {s: "%d x %s on the planted position-dependent structure" % (n, SELFTEST[s][0]) for s, n in selftest_seen.items()}
+    for s in SELFTEST:
+        if not selftest_seen.get(s):
+            ctx.violation("harness self-test failed: the relocation machinery did not report %s for the planted position-dependent structure %s" % (SELFTEST[s][0], s),
+                          {"obligation": "G3: a structure that stores an absolute address must fault or diverge under relocation (harness/g3/c14/src/selftest.rs)",
+                           "how_to_rerun": "%s exh %s %s 0 1 1 0 /dev/stdout" % (exe, s, SELFTEST[s][1])}, no_input=True)
     ctx.cov["per_structure"] = per
     tot = {k: sum(p[k] for p in per.values()) for k in ("cases", "ops", "relocations", "diverged", "faults", "model_checked_cases", "mismatches_model")}
     th = ctx.thorough()
